@@ -18,3 +18,4 @@ import L21.Props.LayersT
 #print axioms L21.Layers.layer_num_never_forgets
 #print axioms L21.Layers.get_or_insert_fidelity
 #print axioms L21.Layers.get_or_insert_history
+#print axioms L21.Layers.import_history_numbers
